@@ -1,12 +1,270 @@
+import SelenModel.Model.Gac
 import Driver.Util
 /-
-(stub — to be filled in) ops with the prefix of this suite: model side.
+`gac.*` ops of the line protocol (property C19): model side.
+
+  gac.b.*  BitSetGAC            gac.h.*  HybridGAC          gac.prune  AllDiff::prune on bounds
+  gac.s.*  SparseSetGAC         gac.g.*  BipartiteGraph + Matching + SparseSetAllDiff
+
+`gac.g.match` / `gac.g.prop` carry the iteration order of `graph.variables()` observed by the
+harness.  `gac.s.prop … | <observed>` (the order is not observable from outside): the model
+answers `member <observed>` iff SOME iteration order of the key set produces exactly the observed
+outcome, and continues from that outcome.
 -/
 namespace Driver
+open Selen Selen.Gac
 
 structure GacSt where
-  dummy : Unit := ()
+  b : BG := BG.new
+  s : SG := SG.new
+  h : HG := HG.new
+  g : Graph := Graph.new
 
-def gacStep (st : GacSt) (_ws : List String) : GacSt × String := (st, "bad-op")
+def sortNat (l : List Nat) : List Nat := l.mergeSort (fun a b => decide (a ≤ b))
+
+def parseNats (ws : List String) : Option (List Nat) := ws.mapM (fun w => w.toNat?)
+
+def showOptPair : Option (Int × Int) → String
+  | none => "-"
+  | some (a, b) => s!"{a}..{b}"
+
+def showBSD (x : Nat) (d : BSD) : String := s!"{x}:{d.lo}..{d.hi}/{d.usize}{showInts d.vals}"
+
+def showBG (g : BG) : String :=
+  s!"flag={showBool g.changed} " ++ " ".intercalate ((sortNat g.keys).map (fun x =>
+    match g.dom x with
+    | some d => showBSD x d
+    | none => s!"{x}:?"))
+
+/-- values present before and absent after, per variable -/
+def removedList (keys : List Nat) (before after : Nat → List Int) : String :=
+  "rm=[" ++ ",".intercalate ((sortNat keys).flatMap (fun x =>
+    ((before x).filter (fun v => !(after x).contains v)).map (fun v => s!"{x}:{v}"))) ++ "]"
+
+def sortInt (l : List Int) : List Int := l.mergeSort (fun a b => decide (a ≤ b))
+
+def showSS1 (x : Nat) (d : SS) : String :=
+  let mm := if d.isEmpty then "-" else s!"{d.minV}..{d.maxV}"
+  s!"{x}:off={d.minUniverse},n={d.n},{showInts d.toList},mm={mm}"
+
+def showSG (g : SG) : String :=
+  " ".intercalate ((sortNat g.keys).map (fun x =>
+    match g.dom x with
+    | some d => showSS1 x d
+    | none => s!"{x}:?"))
+
+def hgKeys (g : HG) : List Nat := sortNat (g.b.keys ++ g.s.keys.filter (fun x => !g.b.keys.contains x))
+
+def showHG (g : HG) : String :=
+  s!"stats={g.b.keys.length},{g.s.keys.length} " ++ " ".intercalate ((hgKeys g).map (fun x =>
+    s!"{x}:{showInts (g.getDomainValues x)},asg={showBool (g.isAssigned x)},val={showOptInt (g.assignedValue x)},inc={showBool (g.isInconsistent x)},bnd={showOptPair (g.getBounds x)}"))
+
+def showGraph (g : Graph) : String :=
+  " ".intercalate ((sortNat g.keys).map (fun x =>
+    match g.vdom x with
+    | some (.bits d) => s!"{x}:B{showInts d.toVec}"
+    | some (.sparse s) => s!"{x}:S{showInts s.toList}"
+    | none => s!"{x}:?")) ++ " ; " ++
+  " ".intercalate ((sortInt (g.vvars.map (fun p => p.1))).map (fun v =>
+    s!"{v}->{showNats ((g.vvars.lookup v).getD [])}"))
+
+def showMatching (m : Matching) (g : Graph) : String :=
+  let vs := sortNat (m.v2l.map (fun p => p.1))
+  let ls := sortInt (m.l2v.map (fun p => p.1))
+  "v2l=[" ++ ",".intercalate (vs.map (fun x => s!"{x}={showOptInt (m.v2l.lookup x)}")) ++ "] l2v=[" ++
+  ",".intercalate (ls.map (fun v => s!"{v}={match m.l2v.lookup v with | some x => toString x | none => "-"}")) ++
+  s!"] complete={showBool (m.isComplete g)}"
+
+/-- all permutations -/
+def insertEverywhere (x : Nat) : List Nat → List (List Nat)
+  | [] => [[x]]
+  | y :: ys => (x :: y :: ys) :: (insertEverywhere x ys).map (fun l => y :: l)
+
+def perms : List Nat → List (List Nat)
+  | [] => [[]]
+  | x :: xs => (perms xs).flatMap (insertEverywhere x)
+
+def showSparseOutcome (g0 : SG) (r : Option (SG × Bool × Bool)) : String :=
+  match r with
+  | none => "panic"
+  | some (g, ch, ok) =>
+    s!"ch={showBool ch} ok={showBool ok} {showSG g} " ++
+      removedList g0.keys (fun x => g0.getDomainValues x) (fun x => g.getDomainValues x)
+
+def splitBar (ws : List String) : List String × List String :=
+  (ws.takeWhile (· ≠ "|"), (ws.dropWhile (· ≠ "|")).drop 1)
+
+def bgProp (g : BG) (vars : List Nat) : BG × String :=
+  let r := g.propagateAlldiff vars
+  (r.1, s!"ch={showBool r.2.1} ok={showBool r.2.2} {showBG r.1} " ++
+    removedList g.keys (fun x => g.getDomainValues x) (fun x => r.1.getDomainValues x))
+
+def hgProp (g : HG) (vars : List Nat) : HG × String :=
+  let r := g.propagateAlldiff vars
+  (r.1, s!"ch={showBool r.2.1} ok={showBool r.2.2} {showHG r.1} " ++
+    removedList (hgKeys g) (fun x => g.getDomainValues x) (fun x => r.1.getDomainValues x))
+
+def showBounds (bs : List (Int × Int)) : String := " ".intercalate (bs.map (fun b => s!"{b.1}..{b.2}"))
+
+def pairUp : List Int → Option (List (Int × Int))
+  | [] => some []
+  | [_] => none
+  | a :: b :: rest => (pairUp rest).map (fun r => (a, b) :: r)
+
+def gacStep (st : GacSt) (ws : List String) : GacSt × String :=
+  match ws with
+  -- ---------------------------------------------------------------- BitSetGAC
+  | ["gac.b.new"] => ({ st with b := BG.new }, "ok")
+  | ["gac.b.add", x, a, b] =>
+    match x.toNat?, parseInt? a, parseInt? b with
+    | some x, some lo, some hi =>
+      if spanOverflows (if lo > hi then hi else lo) (if lo > hi then lo else hi) then (st, "panic")
+      else let g := st.b.addVariable x lo hi; ({ st with b := g }, showBG g)
+    | _, _, _ => (st, "bad-op")
+  | "gac.b.addv" :: x :: vs =>
+    match x.toNat?, parseInts vs with
+    | some x, some l =>
+      if !l.isEmpty && spanOverflows (SS.listMin l) (SS.listMax l) then (st, "panic")
+      else let g := st.b.addVariableWithValues x l; ({ st with b := g }, showBG g)
+    | _, _ => (st, "bad-op")
+  | ["gac.b.rm", x, v] =>
+    match x.toNat?, parseInt? v with
+    | some x, some v => let r := st.b.removeValue x v; ({ st with b := r.1 }, s!"ret={showBool r.2} {showBG r.1}")
+    | _, _ => (st, "bad-op")
+  | ["gac.b.assign", x, v] =>
+    match x.toNat?, parseInt? v with
+    | some x, some v => let r := st.b.assignVariable x v; ({ st with b := r.1 }, s!"ret={showBool r.2} {showBG r.1}")
+    | _, _ => (st, "bad-op")
+  | ["gac.b.above", x, v] =>
+    match x.toNat?, parseInt? v with
+    | some x, some v => let r := st.b.removeAbove x v; ({ st with b := r.1 }, s!"ret={showBool r.2} {showBG r.1}")
+    | _, _ => (st, "bad-op")
+  | ["gac.b.below", x, v] =>
+    match x.toNat?, parseInt? v with
+    | some x, some v => let r := st.b.removeBelow x v; ({ st with b := r.1 }, s!"ret={showBool r.2} {showBG r.1}")
+    | _, _ => (st, "bad-op")
+  | ["gac.b.q", x] =>
+    match x.toNat? with
+    | some x =>
+      (st, s!"size={st.b.domainSize x} asg={showBool (st.b.isAssigned x)} val={showOptInt (st.b.assignedValue x)} inc={showBool (st.b.isInconsistent x)} bnd={showOptPair (st.b.getBounds x)} vals={showInts (st.b.getDomainValues x)}")
+    | none => (st, "bad-op")
+  | "gac.b.prop" :: xs =>
+    match parseNats xs with
+    | some vars => let r := bgProp st.b vars; ({ st with b := r.1 }, r.2)
+    | none => (st, "bad-op")
+  -- ---------------------------------------------------------------- SparseSetGAC
+  | ["gac.s.new"] => ({ st with s := SG.new }, "ok")
+  | ["gac.s.add", x, a, b] =>
+    match x.toNat?, parseInt? a, parseInt? b with
+    | some x, some lo, some hi => let g := st.s.addVariable x lo hi; ({ st with s := g }, showSG g)
+    | _, _, _ => (st, "bad-op")
+  | "gac.s.addv" :: x :: vs =>
+    match x.toNat?, parseInts vs with
+    | some x, some l => let g := st.s.addVariableWithValues x l; ({ st with s := g }, showSG g)
+    | _, _ => (st, "bad-op")
+  | ["gac.s.rm", x, v] =>
+    match x.toNat?, parseInt? v with
+    | some x, some v => let r := st.s.removeValue x v; ({ st with s := r.1 }, s!"ret={showBool r.2} {showSG r.1}")
+    | _, _ => (st, "bad-op")
+  | ["gac.s.assign", x, v] =>
+    match x.toNat?, parseInt? v with
+    | some x, some v => let r := st.s.assignVariable x v; ({ st with s := r.1 }, s!"ret={showBool r.2} {showSG r.1}")
+    | _, _ => (st, "bad-op")
+  | ["gac.s.above", x, v] =>
+    match x.toNat?, parseInt? v with
+    | some x, some v => let r := st.s.removeAbove x v; ({ st with s := r.1 }, s!"ret={showBool r.2} {showSG r.1}")
+    | _, _ => (st, "bad-op")
+  | ["gac.s.below", x, v] =>
+    match x.toNat?, parseInt? v with
+    | some x, some v => let r := st.s.removeBelow x v; ({ st with s := r.1 }, s!"ret={showBool r.2} {showSG r.1}")
+    | _, _ => (st, "bad-op")
+  | "gac.s.prop" :: rest =>
+    let (xs, obs) := splitBar rest
+    match parseNats xs with
+    | some vars =>
+      let observed := " ".intercalate obs
+      let orders := perms (st.s.filteredKeys vars)
+      match orders.find? (fun o => showSparseOutcome st.s (st.s.propagateAlldiff vars o) == observed) with
+      | some o =>
+        match st.s.propagateAlldiff vars o with
+        | some r => ({ st with s := r.1 }, "member " ++ observed)
+        | none => (st, "member " ++ observed)
+      | none => (st, "not-member")
+    | none => (st, "bad-op")
+  -- ---------------------------------------------------------------- BipartiteGraph level
+  | ["gac.g.new"] => ({ st with g := Graph.new }, "ok")
+  | "gac.g.addv" :: x :: vs =>
+    match x.toNat?, parseInts vs with
+    | some x, some l => let g := st.g.addVariable x l; ({ st with g := g }, showGraph g)
+    | _, _ => (st, "bad-op")
+  | ["gac.g.addr", x, a, b] =>
+    match x.toNat?, parseInt? a, parseInt? b with
+    | some x, some lo, some hi => let g := st.g.addVariableRange x lo hi; ({ st with g := g }, showGraph g)
+    | _, _, _ => (st, "bad-op")
+  | ["gac.g.rm", x, v] =>
+    match x.toNat?, parseInt? v with
+    | some x, some v => let r := st.g.removeValue x v; ({ st with g := r.1 }, s!"ret={showBool r.2} {showGraph r.1}")
+    | _, _ => (st, "bad-op")
+  | "gac.g.match" :: xs =>
+    match parseNats xs with
+    | some order =>
+      match Matching.findMaximum st.g order with
+      | some m => (st, showMatching m st.g)
+      | none => (st, "panic")
+    | none => (st, "bad-op")
+  | "gac.g.prop" :: xs =>
+    match parseNats xs with
+    | some order =>
+      match sparsePropagate st.g order with
+      | some (g, ok) => ({ st with g := g }, s!"ok={showBool ok} {showGraph g}")
+      | none => (st, "panic")
+    | none => (st, "bad-op")
+  -- ---------------------------------------------------------------- HybridGAC
+  | ["gac.h.new"] => ({ st with h := HG.new }, "ok")
+  | ["gac.h.add", x, a, b] =>
+    match x.toNat?, parseInt? a, parseInt? b with
+    | some x, some lo, some hi =>
+      match st.h.addVariable x lo hi with
+      | .ok g => ({ st with h := g }, showHG g)
+      | .err => (st, "err")
+      | .panic => (st, "panic")
+    | _, _, _ => (st, "bad-op")
+  | "gac.h.addv" :: x :: vs =>
+    match x.toNat?, parseInts vs with
+    | some x, some l =>
+      match st.h.addVariableWithValues x l with
+      | .ok g => ({ st with h := g }, showHG g)
+      | .err => (st, "err")
+      | .panic => (st, "panic")
+    | _, _ => (st, "bad-op")
+  | ["gac.h.rm", x, v] =>
+    match x.toNat?, parseInt? v with
+    | some x, some v => let r := st.h.removeValue x v; ({ st with h := r.1 }, s!"ret={showBool r.2} {showHG r.1}")
+    | _, _ => (st, "bad-op")
+  | ["gac.h.assign", x, v] =>
+    match x.toNat?, parseInt? v with
+    | some x, some v => let r := st.h.assignVariable x v; ({ st with h := r.1 }, s!"ret={showBool r.2} {showHG r.1}")
+    | _, _ => (st, "bad-op")
+  | ["gac.h.above", x, v] =>
+    match x.toNat?, parseInt? v with
+    | some x, some v => let r := st.h.removeAbove x v; ({ st with h := r.1 }, s!"ret={showBool r.2} {showHG r.1}")
+    | _, _ => (st, "bad-op")
+  | ["gac.h.below", x, v] =>
+    match x.toNat?, parseInt? v with
+    | some x, some v => let r := st.h.removeBelow x v; ({ st with h := r.1 }, s!"ret={showBool r.2} {showHG r.1}")
+    | _, _ => (st, "bad-op")
+  | "gac.h.prop" :: xs =>
+    match parseNats xs with
+    | some vars => let r := hgProp st.h vars; ({ st with h := r.1 }, r.2)
+    | none => (st, "bad-op")
+  -- ---------------------------------------------------------------- AllDiff::prune glue
+  | "gac.prune" :: bs =>
+    match (parseInts bs).bind pairUp with
+    | some l =>
+      match alldiffPrune l with
+      | some r => (st, "some " ++ showBounds r)
+      | none => (st, "none")
+    | none => (st, "bad-op")
+  | _ => (st, "bad-op")
 
 end Driver
